@@ -252,6 +252,9 @@ def run(ctx):
                 a = float(rng.uniform(0, 20)) if i > 4 else [0.0, 20.0, 19.999, 5.0, 10.0][i]
                 e = float(10 ** rng.uniform(-3, 3))
                 h = dets[i % len(dets)]
+                if i % 9 == 8 and h <= 21.0:
+                    # a decay 1 m .. 100 m below / above a detector that sits inside the decay range
+                    a = min(20.0, max(0.0, h + float(rng.choice([-1.0, 1.0])) * float(10 ** rng.uniform(-3, -1))))
                 try:
                     d0, c0 = o_run(k525, b, a, e, 0.0, 0.0)
                     d1, c1 = o_run(ks[h], b, a, e, 0.0, 0.0)
@@ -261,19 +264,19 @@ def run(ctx):
                 bc = max(b, math.radians(1.0))
                 sa = path_to_altitude(a, bc)
                 want = ((path_to_altitude(525.0, bc) - sa) / (path_to_altitude(h, bc) - sa)) ** 2
+                if path_to_altitude(h, bc) == sa:
+                    continue  # the decay is at the detector: the ratio the property names is itself infinite
                 if h < 33.0 and abs(path_to_altitude(h, bc) - sa) < 1.0:
-                    # a decay within 1 km of a detector that sits inside the decay range: the float32
-                    # law-of-sines distance is a difference of angles near pi/2 and loses all accuracy
-                    # (12 % seen at 60 m); observed, not judged
+                    # decays within 1 km of a detector inside the decay range are judged like the others
+                    # since D40 (before, the float32 law-of-sines distance lost all accuracy there)
                     ctx.obs["inv_square_decays_within_1km_of_low_detector"] = ctx.obs.get("inv_square_decays_within_1km_of_low_detector", 0) + 1
-                    continue
                 ctx.count("inv-square")
                 if float(d0) > 0:
                     r = float(d1) / float(d0)
                     # the kernel forms the distance from float32 angles (law of sines); for a detector
                     # inside the decay range the distance can be short and the small central angle is a
                     # difference of numbers near pi/2: relative error ~ eps32 (R + z) / d, twice that squared
-                    tol_r = 1e-3 if h >= 33.0 else 1e-3 + 3e-6 * (RADE + a) / max(abs(path_to_altitude(h, bc) - sa), 1e-6)
+                    tol_r = 1e-4
                     ctx.track_worst("inv_square_ratio_rel", abs(r / want - 1) / tol_r * 1e-3, 1e-3)
                     if not (abs(r / want - 1) <= tol_r and float(c1) == float(c0)):
                         ctx.violation("inv-square", f"detector {h} km vs 525 km at beta={math.degrees(b):.3f} deg, alt={a:.3f} km: density ratio {r!r}, squared distance ratio {want!r}; angles {float(c1)!r} vs {float(c0)!r}", {"det": h, "beta": b, "alt": a, "E": e})
